@@ -468,7 +468,10 @@ theorem selectRecv_start (st : State α) : (selectRecv ch st).1.start = st.start
   · split
     · simp
     · split
-      · split <;> simp
+      · split
+        · simp
+        · simp
+        · split <;> simp
       · simp
       · simp
       · rfl
@@ -1411,7 +1414,7 @@ theorem cachedOk_cons {n f t : Nat} {r : Nat} {es : List (Elem α)} {bs : List (
 theorem r1_left {nL nR : Nat} {futL futR : List (Batch α)} {L R : Side α} {fm : Bool}
     {q qR : List (Batch α)} {S : Noir.Start.State} {acc : List (Elem (Bin α))} {fL tL fR r : Nat}
     {es : List (Elem α)}
-    (c : Common nL nR L R S) (h : R1Rel nL nR futL futR L R fm ((r, es) :: q) qR S acc fL tL fR) :
+    {r0 : Nat} (c : Common nL nR L R S) (h : R1Rel nL nR futL futR L R fm ((r0, es) :: q) qR S acc fL tL fR) :
     (L.process Bin.left Bin.leftEnd r es).2.2 = false
     ∧ InvC nL nR futL futR (L.process Bin.left Bin.leftEnd r es).1 R fm q qR
         (feed S (L.process Bin.left Bin.leftEnd r es).2.1.1 (L.process Bin.left Bin.leftEnd r es).2.1.2).1
@@ -2616,24 +2619,43 @@ theorem runFrom_inv {nL nR : Nat} (ops : List (Op α)) : ∀ (st : State α) (i 
       · simp only [map_tag]
         exact ⟨⟨_, _, p1⟩, p2⟩
 
-theorem inv_init {nL nR : Nat} (ops : List (Op α)) (h : contractL nL nR ops = true) :
-    Inv nL nR (sentBatches true ops) (sentBatches false ops) (init nL nR true false) [] := by
+/-- a fresh state (nothing received yet) with the left side cached; the sender offsets and the
+    watermark frontier are arbitrary -/
+structure Fresh (nL nR : Nat) (st : State α) : Prop where
+  l : st.left = Side.init nL true
+  r : st.right = Side.init nR false
+  fm : st.firstMessage = false
+  ql : st.qL = []
+  qr : st.qR = []
+  sn : st.start.n = nL + nR
+  sT : st.start.missingTerm = nL + nR
+  sf : st.start.missingFar = nL + nR
+  sp : st.start.pending = none
+
+theorem fresh_init (nL nR : Nat) : Fresh nL nR (init nL nR true false : State α) :=
+  ⟨rfl, rfl, rfl, rfl, rfl, rfl, rfl, rfl, rfl⟩
+
+theorem inv_init {nL nR : Nat} (ops : List (Op α)) (st : State α) (hf : Fresh nL nR st)
+    (h : contractL nL nR ops = true) :
+    Inv nL nR (sentBatches true ops) (sentBatches false ops) st [] := by
   simp only [contractL, Bool.and_eq_true, decide_eq_true_eq] at h
   obtain ⟨⟨⟨hL, hR⟩, hcl⟩, hcr⟩ := h
+  unfold Inv
+  rw [hf.l, hf.r, hf.fm, hf.ql, hf.qr]
   apply InvC.r1 0 0 0
-  · refine ⟨hL, hR, rfl, rfl, rfl, rfl, rfl, rfl, rfl, rfl, ?_, ?_, ?_⟩
-    · intro b hb; simp [init, Side.init] at hb
-    · intro p _ b hb; simp [init, Side.init] at hb
+  · refine ⟨hL, hR, rfl, rfl, rfl, rfl, rfl, rfl, hf.sn, by rw [hf.sT]; rfl, ?_, ?_, ?_⟩
+    · intro b hb; simp [Side.init] at hb
+    · intro p _ b hb; simp [Side.init] at hb
     · have : ¬ (0 = nL) := by omega
-      simp [init, Side.init, cacheEls, markers, farsIn, this]
+      simp [Side.init, cacheEls, markers, farsIn, this]
   · have hs : (nL - 0) + (nR - 0) ≠ 0 := by omega
-    refine ⟨rfl, rfl, rfl, rfl, Nat.le_refl _, Nat.zero_le _, by simp [init, Side.init, cacheEls, farsIn],
-      rfl, Nat.zero_le _, rfl, rfl, ?_, by simpa [init] using hcl, ⟨false, ?_⟩, fun _ => rfl, [], [], ?_, ?_, ?_⟩
-    · simp only [init, Noir.Start.init, startFar]; rw [if_neg hs]; omega
+    refine ⟨rfl, rfl, rfl, rfl, Nat.le_refl _, Nat.zero_le _, by simp [Side.init, cacheEls, farsIn],
+      rfl, Nat.zero_le _, rfl, rfl, ?_, by simpa using hcl, ⟨false, ?_⟩, fun _ => hf.sp, [], [], ?_, ?_, ?_⟩
+    · rw [hf.sf]; simp only [startFar]; rw [if_neg hs]; omega
     · have : (0 : Nat) ≠ nR := by omega
-      simpa [init, this] using hcr
+      simpa [this] using hcr
     · exact ⟨by simp [joinRounds], by simp, fun e he => by simp at he, by simp⟩
-    · intro _; exact ⟨rfl, by simp [cacheP, init, Side.init, cacheEls, presented]⟩
+    · intro _; exact ⟨rfl, by simp [cacheP, Side.init, cacheEls, presented]⟩
     · intro h0; exact absurd h0 hs
 
 /-- what the invariant says about the output: closed rounds all presenting the cached side alike (with
@@ -2674,20 +2696,26 @@ theorem inv_output {nL nR : Nat} {fl fr : List (Batch α)} {st : State α} {acc 
     obtain ⟨rs, sh, hne, he⟩ := h.sh
     exact ⟨_, rs, [Elem.term], sh.clean, sh.same, fun _ => h.mk1, Or.inr ⟨he, hne, rfl, h.dead⟩⟩
 
-/-- the output of a contract-respecting history with the left side cached, in shaped form -/
-theorem run_shaped (nL nR : Nat) (ops : List (Op α)) (hc : contractL nL nR ops = true) :
-    ∃ P rs cur, (∀ r ∈ rs, Clean r) ∧ (∀ r ∈ rs, presented true r = P) ∧ (rs ≠ [] → markers P = 1)
-      ∧ (run ch nL nR true false ops).2 ≠ .panic
-      ∧ (((run ch nL nR true false ops).1 = joinRounds rs ++ cur ∧ Clean cur ∧ (run ch nL nR true false ops).2 ≠ .done)
-         ∨ ((run ch nL nR true false ops).1 = joinRounds rs ++ [Elem.term] ∧ rs ≠ [] ∧ cur = [Elem.term])) := by
-  obtain ⟨⟨fl, fr, hinv⟩, hnp⟩ := runFrom_inv (nL := nL) (nR := nR) ops (init nL nR true false) 0 [] (inv_init ops hc)
+/-- the shape of the output of a run: closed rounds `rs`, all presenting side `l` alike (as `P`, with exactly
+    one End marker as counted by `mk`), and an open round — or closed rounds and `Terminate` -/
+def RunShaped (l : Bool) (mk : List (Elem (Bin α)) → Nat) (out : List (Elem (Bin α))) (oc : Outcome) : Prop :=
+  ∃ P rs cur, (∀ r ∈ rs, Clean r) ∧ (∀ r ∈ rs, presented l r = P) ∧ (rs ≠ [] → mk P = 1)
+    ∧ oc ≠ .panic
+    ∧ ((out = joinRounds rs ++ cur ∧ Clean cur ∧ oc ≠ .done)
+       ∨ (out = joinRounds rs ++ [Elem.term] ∧ rs ≠ [] ∧ cur = [Elem.term]))
+
+/-- the output of a contract-respecting history with the left side cached, from any fresh state -/
+theorem runFrom_shaped (nL nR : Nat) (ops : List (Op α)) (st : State α) (hf : Fresh nL nR st)
+    (hc : contractL nL nR ops = true) :
+    RunShaped true markers ((runFrom ch st 0 ops).2.1.map (·.2)) (runFrom ch st 0 ops).2.2.1 := by
+  obtain ⟨⟨fl, fr, hinv⟩, hnp⟩ := runFrom_inv (ch := ch) (nL := nL) (nR := nR) ops st 0 [] (inv_init ops st hf hc)
   simp only [List.nil_append] at hinv
   obtain ⟨P, rs, cur, h1, h2, hm, h3⟩ := inv_output hinv
   refine ⟨P, rs, cur, h1, h2, hm, hnp, ?_⟩
-  have hn : (init nL nR true false : State α).start.missingTerm ≠ 0 := by
+  have hn : st.start.missingTerm ≠ 0 := by
     simp only [contractL, Bool.and_eq_true, decide_eq_true_eq] at hc
-    simp [init, Noir.Start.init]; omega
-  have hterm := runFrom_term (ch := ch) ops (init nL nR true false) 0 hn
+    rw [hf.sT]; omega
+  have hterm := runFrom_term (ch := ch) ops st 0 hn
   rcases h3 with ⟨e1, e2, _⟩ | ⟨e1, e2, e3, _⟩
   · left
     refine ⟨e1, e2, ?_⟩
@@ -2695,7 +2723,7 @@ theorem run_shaped (nL nR : Nat) (ops : List (Op α)) (hc : contractL nL nR ops 
     rcases hterm with ⟨t1, _⟩ | ⟨_, pre, t2, _⟩
     · exact t1
     · exfalso
-      have hmem : Elem.term ∈ (runFrom ch (init nL nR true false) 0 ops).2.1.map (·.2) := by rw [t2]; simp
+      have hmem : Elem.term ∈ (runFrom ch st 0 ops).2.1.map (·.2) := by rw [t2]; simp
       rw [e1] at hmem
       rcases List.mem_append.mp hmem with hm | hm
       · simp only [joinRounds, List.mem_flatMap] at hm
@@ -2705,5 +2733,605 @@ theorem run_shaped (nL nR : Nat) (ops : List (Op α)) (hc : contractL nL nR ops 
         · simp at hm
       · have := e2 _ hm; simp [plainE, Elem.isTerm] at this
   · right; exact ⟨e1, e2, e3⟩
+
+theorem run_shaped (nL nR : Nat) (ops : List (Op α)) (hc : contractL nL nR ops = true) :
+    RunShaped true markers (run ch nL nR true false ops).1 (run ch nL nR true false ops).2 :=
+  runFrom_shaped nL nR ops _ (fresh_init nL nR) hc
+
+/-! ### What a shaped run satisfies -/
+
+theorem shaped_split {l : Bool} {mk} {out : List (Elem (Bin α))} {oc : Outcome}
+    (h : RunShaped l mk out oc) :
+    ∃ P rs, (splitRounds out).1 = rs ∧ (∀ r ∈ rs, presented l r = P) ∧ (rs ≠ [] → mk P = 1) := by
+  obtain ⟨P, rs, cur, h1, h2, hm, _, h3⟩ := h
+  refine ⟨P, rs, ?_, h2, hm⟩
+  rcases h3 with ⟨e1, e2, _⟩ | ⟨e1, _, _⟩
+  · rw [e1, splitRounds_shape rs h1 cur (fun e he => by have := e2 e he; simp [plainE] at this; exact this.1)]
+  · rw [e1, splitRounds_shape rs h1 [Elem.term] (fun e he => by simp at he; subst he; rfl)]
+
+theorem shaped_rounds_equal {l : Bool} {mk} {out : List (Elem (Bin α))} {oc : Outcome}
+    (h : RunShaped l mk out oc) :
+    ∀ r ∈ (splitRounds out).1, presented l r = presented l ((splitRounds out).1.headD []) := by
+  obtain ⟨P, rs, hs, h2, _⟩ := shaped_split h
+  rw [hs]
+  intro r hr
+  rw [h2 r hr]
+  cases rs with
+  | nil => simp at hr
+  | cons r1 _ => exact (h2 r1 (by simp)).symm
+
+theorem shaped_marker_once {l : Bool} {mk} {out : List (Elem (Bin α))} {oc : Outcome}
+    (h : RunShaped l mk out oc) (hmk : ∀ es, mk (presented l es) = mk es) :
+    ∀ r ∈ (splitRounds out).1, mk r = 1 := by
+  obtain ⟨P, rs, hs, h2, hm⟩ := shaped_split h
+  rw [hs]
+  intro r hr
+  rw [← hmk, h2 r hr]
+  exact hm (List.ne_nil_of_mem hr)
+
+theorem shaped_after_end [DecidableEq α] {l : Bool} {mk} {out : List (Elem (Bin α))} {oc : Outcome}
+    (h : RunShaped l mk out oc) (hd : oc = .done) :
+    (splitRounds out).2 = [Elem.term] ∧ c11Ok l out = true := by
+  obtain ⟨P, rs, cur, h1, h2, _, _, h3⟩ := h
+  rcases h3 with ⟨_, _, e3⟩ | ⟨e1, _, _⟩
+  · exact absurd hd e3
+  · have hs := splitRounds_shape rs h1 [Elem.term] (fun e he => by simp at he; subst he; rfl)
+    rw [e1]
+    refine ⟨by rw [hs], ?_⟩
+    unfold c11Ok
+    rw [hs]
+    cases rs with
+    | nil => cases l <;> simp [presented, ofSide]
+    | cons r1 rest =>
+      simp only [Bool.and_eq_true, List.all_eq_true, decide_eq_true_eq]
+      refine ⟨fun r hr => ?_, by cases l <;> simp [presented, ofSide]⟩
+      rw [h2 r (by simp [hr]), h2 r1 (by simp)]
+
+theorem shaped_grammar {l : Bool} {mk} {out : List (Elem (Bin α))} {oc : Outcome}
+    (h : RunShaped l mk out oc) (hd : oc = .done) : grammarOk out = true := by
+  obtain ⟨P, rs, cur, h1, _, _, _, h3⟩ := h
+  rcases h3 with ⟨_, _, e3⟩ | ⟨e1, e2, _⟩
+  · exact absurd hd e3
+  · rw [e1]; exact grammarOk_rounds rs h1 e2
+
+theorem shaped_no_panic {l : Bool} {mk} {out : List (Elem (Bin α))} {oc : Outcome}
+    (h : RunShaped l mk out oc) : oc ≠ .panic := by
+  obtain ⟨_, _, _, _, _, _, h, _⟩ := h
+  exact h
+
+/-! ## Exchanging the two sides -/
+
+def Bin.swap : Bin α → Bin α
+  | .left a => .right a
+  | .right a => .left a
+  | .leftEnd => .rightEnd
+  | .rightEnd => .leftEnd
+
+def swapEl (e : Elem (Bin α)) : Elem (Bin α) := e.map Bin.swap
+
+def swapBatch (b : Batch (Bin α)) : Batch (Bin α) := (b.1, b.2.map swapEl)
+
+def Side.swap (s : Side α) : Side α := { s with cache := s.cache.map swapBatch }
+
+def State.swap (st : State α) : State α :=
+  { left := st.right.swap, right := st.left.swap, firstMessage := st.firstMessage, qL := st.qR, qR := st.qL,
+    start := st.start, alreadyTimedOut := st.alreadyTimedOut, ambig := st.ambig, offL := st.offR, offR := st.offL }
+
+def Sel.swap : Sel α → Sel α
+  | .recv l b => .recv (!l) (swapBatch b)
+  | .replay l b => .replay (!l) (swapBatch b)
+  | .synth b => .synth (swapBatch b)
+  | .block => .block
+  | .panic => .panic
+
+def swapOp : Op α → Op α
+  | .enq l r es => .enq (!l) r es
+  | .pump => .pump
+
+/-- the result of a `select`, with the sides exchanged -/
+def swapRes (r : State α × Sel α) : State α × Sel α := (r.1.swap, r.2.swap)
+
+@[simp] theorem swap_isTerminated (s : Side α) : s.swap.isTerminated = s.isTerminated := rfl
+@[simp] theorem swap_isEnded (s : Side α) : s.swap.isEnded = s.isEnded := rfl
+@[simp] theorem swap_cacheFinished (s : Side α) : s.swap.cacheFinished = s.cacheFinished := by
+  simp [Side.swap, Side.cacheFinished]
+@[simp] theorem swap_cached (s : Side α) : s.swap.cached = s.cached := rfl
+@[simp] theorem swap_instances (s : Side α) : s.swap.instances = s.instances := rfl
+@[simp] theorem swap_missingTerm (s : Side α) : s.swap.missingTerm = s.missingTerm := rfl
+@[simp] theorem swap_cacheFull (s : Side α) : s.swap.cacheFull = s.cacheFull := rfl
+theorem swap_reset (s : Side α) : s.swap.reset = s.reset.swap := by
+  unfold Side.reset Side.swap; simp only; split <;> rfl
+
+theorem swap_nextCached (s : Side α) :
+    s.swap.nextCached = (s.nextCached.1.swap, swapBatch s.nextCached.2) := by
+  unfold Side.nextCached
+  simp only [Side.swap, Side.cacheFinished, List.length_map]
+  have : (s.cache.map swapBatch).getD s.cachePointer (0, []) = swapBatch (s.cache.getD s.cachePointer (0, [])) := by
+    simp only [List.getD_eq_getElem?_getD, List.getElem?_map]
+    cases s.cache[s.cachePointer]? <;> simp [swapBatch]
+  rw [this]
+  by_cases h : s.cache.length ≤ s.cachePointer + 1 <;> simp [h]
+
+/-- `process_side` of one side is, up to the exchange of the wrappers, that of the other -/
+theorem processElems_swap (w : α → Bin α) (e : Bin α) (c : Bool) (mf mt : Nat) (es : List (Elem α)) :
+    processElems (fun a => (w a).swap) e.swap c mf mt es =
+      ((processElems w e c mf mt es).1, (processElems w e c mf mt es).2.1,
+       (processElems w e c mf mt es).2.2.1.map swapEl, (processElems w e c mf mt es).2.2.2) := by
+  induction es generalizing mf mt with
+  | nil => simp [processElems]
+  | cons x xs ih =>
+    simp only [processElems, ih]
+    cases x <;> simp [swapEl, Elem.map, Elem.isFar, Elem.isTerm] <;> split <;> simp [swapEl, Elem.map]
+
+
+theorem process_swap_lr (s : Side α) (r : Nat) (es : List (Elem α)) :
+    s.swap.process Bin.left Bin.leftEnd r es =
+      ((s.process Bin.right Bin.rightEnd r es).1.swap, swapBatch (s.process Bin.right Bin.rightEnd r es).2.1,
+       (s.process Bin.right Bin.rightEnd r es).2.2) := by
+  have h := processElems_swap Bin.right Bin.rightEnd s.cached s.missingFar s.missingTerm es
+  have h' : processElems Bin.left Bin.leftEnd s.cached s.missingFar s.missingTerm es = _ := h
+  unfold Side.process
+  simp only [Side.swap, h']
+  cases s.cached <;> simp [swapBatch]
+
+theorem process_swap_rl (s : Side α) (r : Nat) (es : List (Elem α)) :
+    s.swap.process Bin.right Bin.rightEnd r es =
+      ((s.process Bin.left Bin.leftEnd r es).1.swap, swapBatch (s.process Bin.left Bin.leftEnd r es).2.1,
+       (s.process Bin.left Bin.leftEnd r es).2.2) := by
+  have h := processElems_swap Bin.left Bin.leftEnd s.cached s.missingFar s.missingTerm es
+  have h' : processElems Bin.right Bin.rightEnd s.cached s.missingFar s.missingTerm es = _ := h
+  unfold Side.process
+  simp only [Side.swap, h']
+  cases s.cached <;> simp [swapBatch]
+
+theorem recvLeft_swap (st : State α) : recvLeft st.swap = swapRes (recvRight st) := by
+  unfold recvLeft recvRight swapRes
+  cases hq : st.qR with
+  | nil => simp [State.swap, hq, Sel.swap]
+  | cons b q =>
+    obtain ⟨r, es⟩ := b
+    simp only [State.swap, hq, process_swap_lr]
+    split <;> simp [State.swap, Sel.swap, hq]
+
+theorem recvRight_swap (st : State α) : recvRight st.swap = swapRes (recvLeft st) := by
+  unfold recvLeft recvRight swapRes
+  cases hq : st.qL with
+  | nil => simp [State.swap, hq, Sel.swap]
+  | cons b q =>
+    obtain ⟨r, es⟩ := b
+    simp only [State.swap, hq, process_swap_rl]
+    split <;> simp [State.swap, Sel.swap, hq]
+
+theorem prepare_swap (st : State α) : prepare st.swap = (prepare st).swap := by
+  unfold prepare
+  simp only [State.swap, swap_isEnded, swap_cacheFinished]
+  have : (st.right.isEnded && st.left.isEnded && st.right.cacheFinished && st.left.cacheFinished)
+      = (st.left.isEnded && st.right.isEnded && st.left.cacheFinished && st.right.cacheFinished) := by
+    cases st.right.isEnded <;> cases st.left.isEnded <;> cases st.right.cacheFinished <;>
+      cases st.left.cacheFinished <;> rfl
+  rw [this]
+  split <;> simp [swap_reset]
+
+section
+variable {ch' : Nat → Bool}
+theorem selectRecv_swap (st : State α) (hch : ∀ i, ch' i = !ch i)
+    (hne : ¬ (st.left.isEnded = true ∧ st.right.isEnded = true)) :
+    selectRecv ch' st.swap = swapRes (selectRecv ch st) := by
+  unfold selectRecv
+  have e1 : st.swap.left.isEnded = st.right.isEnded := rfl
+  have e2 : st.swap.right.isEnded = st.left.isEnded := rfl
+  have e3 : st.swap.left.isTerminated = st.right.isTerminated := rfl
+  have e4 : st.swap.right.isTerminated = st.left.isTerminated := rfl
+  have e5 : st.swap.qL = st.qR := rfl
+  have e6 : st.swap.qR = st.qL := rfl
+  have e7 : st.swap.ambig = st.ambig := rfl
+  rw [e1, e2, e3, e4, e5, e6, e7]
+  cases hl : st.left.isEnded <;> cases hr : st.right.isEnded
+  · -- neither side ended
+    simp only [Bool.false_eq_true, if_false]
+    cases hlt : st.left.isTerminated <;> cases hrt : st.right.isTerminated
+    · simp only
+      cases hql : st.qL <;> cases hqr : st.qR
+      · simp only; rw [recvRight_swap]
+        unfold recvRight recvLeft; simp [hql, hqr]
+      · simp only; rw [recvLeft_swap]
+      · simp only; rw [recvRight_swap]
+      · simp only
+        rw [hch st.ambig]
+        cases ch st.ambig
+        · simp only [Bool.not_false, if_true, Bool.false_eq_true, if_false]
+          have := recvLeft_swap { st with ambig := st.ambig + 1 }
+          rw [hql, hqr] at this; exact this
+        · simp only [Bool.not_true, Bool.false_eq_true, if_false, if_true]
+          have := recvRight_swap { st with ambig := st.ambig + 1 }
+          rw [hql, hqr] at this; exact this
+    · simp only; exact recvRight_swap st
+    · simp only; exact recvLeft_swap st
+    · rfl
+  · simp only [Bool.false_eq_true, if_false, if_true]; exact recvRight_swap st
+  · simp only [Bool.false_eq_true, if_false, if_true]; exact recvLeft_swap st
+  · exact absurd ⟨hl, hr⟩ hne
+theorem isBlock_swap (s : Sel α) : s.swap.isBlock = s.isBlock := by cases s <;> rfl
+
+/-- the replay branch of the left / right cache is taken -/
+def replaysL (st : State α) : Bool :=
+  st.left.cached && st.left.cacheFull && !st.left.cacheFinished && st.right.missingTerm == st.right.instances
+def replaysR (st : State α) : Bool :=
+  st.right.cached && st.right.cacheFull && !st.right.cacheFinished && st.left.missingTerm == st.left.instances
+
+theorem selectBody_swap (st : State α) (hch : ∀ i, ch' i = !ch i)
+    (hwf : ¬ (st.left.cached = true ∧ st.right.cached = true))
+    (hsym : (st.firstMessage && (st.left.cached || st.right.cached)) = false → replaysL st = false →
+      replaysR st = false → ¬ (st.left.isEnded = true ∧ st.right.isEnded = true)) :
+    selectBody ch' st.swap = swapRes (selectBody ch st) := by
+  unfold selectBody
+  have e1 : st.swap.firstMessage = st.firstMessage := rfl
+  have e2 : st.swap.left.cached = st.right.cached := rfl
+  have e3 : st.swap.right.cached = st.left.cached := rfl
+  have e4 : (st.swap.left.cached && st.swap.left.cacheFull && !st.swap.left.cacheFinished
+      && st.swap.right.missingTerm == st.swap.right.instances) = replaysR st := by
+    simp [State.swap, replaysR]
+  have e5 : (st.swap.right.cached && st.swap.right.cacheFull && !st.swap.right.cacheFinished
+      && st.swap.left.missingTerm == st.swap.left.instances) = replaysL st := by
+    simp [State.swap, replaysL]
+  have e6 : (st.left.cached && st.left.cacheFull && !st.left.cacheFinished
+      && st.right.missingTerm == st.right.instances) = replaysL st := rfl
+  have e7 : (st.right.cached && st.right.cacheFull && !st.right.cacheFinished
+      && st.left.missingTerm == st.left.instances) = replaysR st := rfl
+  rw [e4, e5, e6, e7, e1, e2, e3]
+  have hc3 : (st.firstMessage && (st.right.cached || st.left.cached))
+      = (st.firstMessage && (st.left.cached || st.right.cached)) := by
+    cases st.right.cached <;> cases st.left.cached <;> rfl
+  rw [hc3]
+  cases h3 : (st.firstMessage && (st.left.cached || st.right.cached))
+  · simp only [Bool.false_eq_true, if_false]
+    cases hL : replaysL st <;> cases hR : replaysR st
+    · simp only [Bool.false_eq_true, if_false]
+      exact selectRecv_swap st hch (hsym h3 hL hR)
+    · simp only [Bool.false_eq_true, if_false, if_true]
+      simp only [swapRes, State.swap, Sel.swap, swap_nextCached]; rfl
+    · simp only [Bool.false_eq_true, if_false, if_true]
+      simp only [swapRes, State.swap, Sel.swap, swap_nextCached]; rfl
+    · exfalso; apply hwf
+      simp [replaysL, replaysR] at hL hR
+      exact ⟨hL.1.1.1, hR.1.1.1⟩
+  · simp only [if_true]
+    simp only [Bool.and_eq_true, Bool.or_eq_true] at h3
+    cases hl : st.left.cached <;> cases hr : st.right.cached
+    · rw [hl, hr] at h3; simp at h3
+    · simp only [Bool.false_eq_true, if_false, if_true]
+      rw [recvRight_swap]
+      simp only [swapRes, isBlock_swap]; rfl
+    · simp only [Bool.false_eq_true, if_false, if_true]
+      rw [recvLeft_swap]
+      simp only [swapRes, isBlock_swap]; rfl
+    · exact absurd ⟨hl, hr⟩ hwf
+theorem numTerminates_swap (st : State α) (hwf : ¬ (st.left.cached = true ∧ st.right.cached = true)) :
+    numTerminates st.swap = numTerminates st := by
+  unfold numTerminates
+  simp only [State.swap, swap_cached, swap_instances]
+  by_cases hl : st.left.cached = true <;> by_cases hr : st.right.cached = true <;> simp [hl, hr]
+  exact absurd ⟨hl, hr⟩ hwf
+
+theorem prepare_cached (st : State α) :
+    (prepare st).left.cached = st.left.cached ∧ (prepare st).right.cached = st.right.cached := by
+  unfold prepare; split <;> simp
+
+theorem select_swap (st : State α) (hch : ∀ i, ch' i = !ch i)
+    (hwf : ¬ (st.left.cached = true ∧ st.right.cached = true))
+    (hsym : ((prepare st).firstMessage && ((prepare st).left.cached || (prepare st).right.cached)) = false →
+      replaysL (prepare st) = false → replaysR (prepare st) = false →
+      ¬ ((prepare st).left.isEnded = true ∧ (prepare st).right.isEnded = true)) :
+    select ch' st.swap = swapRes (select ch st) := by
+  unfold select
+  rw [numTerminates_swap st hwf]
+  have e : (st.swap.left.isTerminated && st.swap.right.isTerminated && decide (numTerminates st > 0))
+      = (st.left.isTerminated && st.right.isTerminated && decide (numTerminates st > 0)) := by
+    simp only [State.swap, swap_isTerminated]
+    cases st.right.isTerminated <;> cases st.left.isTerminated <;> rfl
+  rw [e]
+  split
+  · simp [swapRes, Sel.swap, swapBatch, swapEl, Elem.map]
+  · rw [prepare_swap]
+    have hc := prepare_cached st
+    exact selectBody_swap (prepare st) hch (by rw [hc.1, hc.2]; exact hwf) hsym
+/-- in every live state of a contract-respecting run with the left side cached, `select` never reaches
+    its plain-receive branch with both sides ended — the only point where it is not symmetric -/
+theorem inv_sym {nL nR : Nat} {fl fr : List (Batch α)} {st : State α} {acc : List (Elem (Bin α))}
+    (h : Inv nL nR fl fr st acc) (hlive : st.start.missingTerm ≠ 0) :
+    ¬ (st.left.cached = true ∧ st.right.cached = true)
+    ∧ (((prepare st).firstMessage && ((prepare st).left.cached || (prepare st).right.cached)) = false →
+        replaysL (prepare st) = false → replaysR (prepare st) = false →
+        ¬ ((prepare st).left.isEnded = true ∧ (prepare st).right.isEnded = true)) := by
+  -- the facts needed, phase by phase
+  have facts : st.left.cached = true ∧ st.right.cached = false ∧ 0 < st.right.instances
+      ∧ st.right.cacheFinished = true
+      ∧ (st.left.cacheFull = false → st.left.cachePointer = st.left.cache.length)
+      ∧ (st.right.missingTerm ≠ st.right.instances → st.right.missingFar ≠ 0) := by
+    cases h with
+    | r1 fL tL fR c h =>
+      exact ⟨c.lc, c.rc, by rw [c.ri]; exact c.nRpos, by simp [Side.cacheFinished, c.rcache, c.rptr],
+        fun _ => h.ptr, fun hne => absurd (by rw [h.rt, c.ri]) hne⟩
+    | wait c h =>
+      exact ⟨c.lc, c.rc, by rw [c.ri]; exact c.nRpos, by simp [Side.cacheFinished, c.rcache, c.rptr],
+        fun hf => (by rw [h.full] at hf; cases hf), fun hne => absurd (by rw [h.rt, c.ri]) hne⟩
+    | play p fR c h =>
+      exact ⟨c.lc, c.rc, by rw [c.ri]; exact c.nRpos, by simp [Side.cacheFinished, c.rcache, c.rptr],
+        fun hf => (by rw [h.full] at hf; cases hf), fun hne => absurd (by rw [h.rt, c.ri]) hne⟩
+    | term t c h =>
+      exact ⟨c.lc, c.rc, by rw [c.ri]; exact c.nRpos, by simp [Side.cacheFinished, c.rcache, c.rptr],
+        fun hf => (by rw [h.full] at hf; cases hf), fun _ => by rw [h.rf]; have := c.nRpos; omega⟩
+    | fin h => exact absurd h.dead hlive
+  obtain ⟨f1, f2, f3, f4, f5, f6⟩ := facts
+  refine ⟨fun hb => (by rw [f2] at hb; cases hb.2), ?_⟩
+  intro h3 hL _ hboth
+  unfold prepare at h3 hL hboth
+  split at h3
+  · simp [f1] at h3
+  · rename_i hnr
+    rw [if_neg hnr] at hL hboth
+    obtain ⟨b1, b2⟩ := hboth
+    have hlcf : st.left.cacheFinished = false := by
+      cases hc : st.left.cacheFinished with
+      | false => rfl
+      | true => exact absurd (by simp [b1, b2, hc, f4]) hnr
+    have hlt : st.left.cachePointer < st.left.cache.length := by
+      simp [Side.cacheFinished] at hlcf; exact hlcf
+    simp only [replaysL, f1, hlcf, Bool.not_false, Bool.and_true, Bool.true_and, Bool.and_eq_false_iff] at hL
+    rcases hL with hL | hL
+    · have := f5 hL; omega
+    · have hmf := f6 (by simpa using hL)
+      simp [Side.isEnded, f2] at b2
+      exact hmf b2
+/-- `Start` is parametric in the payload -/
+theorem step_map {β γ : Type} (f : β → γ) (s : Noir.Start.State) (r : Nat) (e : Elem β) :
+    Noir.Start.step s (.elem r (e.map f)) =
+      ((Noir.Start.step s (.elem r e)).1, (Noir.Start.step s (.elem r e)).2.map (Elem.map f)) := by
+  by_cases h : s.missingTerm = 0
+  · simp [Noir.Start.step, h]
+  · cases e with
+    | item v => simp only [Noir.Start.step, h, if_false, Elem.map]; cases s.pending <;> simp [Elem.map]
+    | ts v t => simp only [Noir.Start.step, h, if_false, Elem.map]; cases s.pending <;> simp [Elem.map]
+    | flushBatch => simp only [Noir.Start.step, h, if_false, Elem.map]; cases s.pending <;> simp [Elem.map]
+    | wm t =>
+      simp only [Noir.Start.step, h, if_false, Elem.map]
+      cases (s.frontier.update r t).2 <;> simp [Elem.map]
+    | far =>
+      simp only [Noir.Start.step, h, if_false, Elem.map, Noir.Start.afterCounters]
+      split <;> (try split) <;> simp [Elem.map]
+    | term =>
+      simp only [Noir.Start.step, h, if_false, Elem.map, Noir.Start.afterCounters]
+      split <;> (try split) <;> simp [Elem.map]
+
+theorem feed_map {β γ : Type} (f : β → γ) (r : Nat) (es : List (Elem β)) : ∀ (s : Noir.Start.State),
+    feed s r (es.map (Elem.map f)) = ((feed s r es).1, (feed s r es).2.map (Elem.map f)) := by
+  induction es with
+  | nil => intro s; rfl
+  | cons e es ih =>
+    intro s
+    simp only [List.map_cons, feed, step_map, ih, List.map_append]
+
+theorem timeout_map (s : Noir.Start.State) :
+    ((Noir.Start.step s (Noir.Start.Arrival.timeout : Noir.Start.Arrival (Bin α))).2.dropLast).map swapEl
+      = (Noir.Start.step s (Noir.Start.Arrival.timeout : Noir.Start.Arrival (Bin α))).2.dropLast := by
+  by_cases h : s.missingTerm = 0
+  · simp [Noir.Start.step, h]
+  · simp only [Noir.Start.step, h, if_false]
+    cases s.pending <;> simp [swapEl, Elem.map]
+theorem batch_swap (s : Sel α) : s.swap.batch? = s.batch?.map swapBatch := by cases s <;> rfl
+theorem isPanic_swap (s : Sel α) : s.swap.isPanic = s.isPanic := by cases s <;> rfl
+
+/-- **a pull with the sides exchanged is the exchanged pull** (along a contract-respecting run with the
+    left side cached; the oracle for the unspecified choice is flipped) -/
+theorem pump_swap {nL nR : Nat} {fl fr : List (Batch α)} (hch : ∀ i, ch' i = !ch i) :
+    ∀ (fuel : Nat) (st : State α) (acc : List (Elem (Bin α))), Inv nL nR fl fr st acc →
+    pump ch' fuel st.swap =
+      ((pump ch fuel st).1.swap, (pump ch fuel st).2.1.map swapEl, (pump ch fuel st).2.2.1.map Sel.swap,
+       (pump ch fuel st).2.2.2) := by
+  intro fuel
+  induction fuel with
+  | zero => intro st acc _; simp [pump]
+  | succ n ih =>
+    intro st acc h
+    have hs : st.swap.start = st.start := rfl
+    by_cases hlive : st.start.missingTerm = 0
+    · unfold pump; simp [hs, hlive]
+    · obtain ⟨hwf, hsym⟩ := inv_sym h hlive
+      have hsel := select_swap (ch := ch) (ch' := ch') st hch hwf hsym
+      obtain ⟨s1, s2, s3⟩ := inv_select (ch := ch) st h hlive
+      have hst := select_start (ch := ch) st
+      unfold pump
+      rw [hs, if_neg hlive, if_neg hlive, hsel]
+      simp only [swapRes, batch_swap, isPanic_swap]
+      cases hb : (select ch st).2.batch? with
+      | none =>
+        simp only [Option.map_none]
+        rw [s1]
+        simp only [Bool.false_eq_true, if_false]
+        have ha : st.swap.alreadyTimedOut = st.alreadyTimedOut := rfl
+        rw [ha]
+        cases st.alreadyTimedOut
+        · simp only [Bool.false_eq_true, if_false]
+          have hss : (select ch st).1.swap.start = (select ch st).1.start := rfl
+          rw [hss, timeout_map]
+          simp [State.swap]
+        · simp [State.swap]
+      | some b =>
+        simp only [Option.map_some]
+        have hss : (select ch st).1.swap.start = (select ch st).1.start := rfl
+        have hfm : feed (select ch st).1.swap.start (swapBatch b).1 (swapBatch b).2
+            = ((feed (select ch st).1.start b.1 b.2).1, (feed (select ch st).1.start b.1 b.2).2.map swapEl) :=
+          feed_map Bin.swap b.1 b.2 _
+        simp only [hfm]
+        by_cases hd : (feed (select ch st).1.start b.1 b.2).1.missingTerm = 0
+        · rw [if_pos hd, if_pos hd]; simp [State.swap]
+        · rw [if_neg hd, if_neg hd]
+          have hinv := s3 b hb
+          rw [← hst] at hinv
+          have := ih ({ (select ch st).1 with start := (feed (select ch st).1.start b.1 b.2).1, alreadyTimedOut := false }) (acc ++ (feed (select ch st).1.start b.1 b.2).2) hinv
+          have e : ({ (select ch st).1.swap with start := (feed (select ch st).1.start b.1 b.2).1, alreadyTimedOut := false } : State α) = ({ (select ch st).1 with start := (feed (select ch st).1.start b.1 b.2).1, alreadyTimedOut := false } : State α).swap := rfl
+          rw [e, this]
+          simp
+theorem pumpFuel_swap (st : State α) : pumpFuel st.swap = pumpFuel st := by
+  unfold pumpFuel
+  simp only [State.swap, Side.swap, List.length_map]
+  have h1 : st.qR.length + st.qL.length + 2 = st.qL.length + st.qR.length + 2 := by omega
+  have h2 : st.right.cache.length + st.left.cache.length + st.qR.length + st.qL.length + 2
+      = st.left.cache.length + st.right.cache.length + st.qL.length + st.qR.length + 2 := by omega
+  rw [h1, h2]
+
+theorem enqueue_swap (st : State α) (l : Bool) (r : Nat) (es : List (Elem α)) :
+    enqueue st.swap (!l) r es = (enqueue st l r es).swap := by
+  cases l <;> simp [enqueue, State.swap]
+
+/-- **a history with the sides exchanged is the exchanged history** -/
+theorem runFrom_swap {nL nR : Nat} (hch : ∀ i, ch' i = !ch i) (ops : List (Op α)) :
+    ∀ (st : State α) (i : Nat) (acc : List (Elem (Bin α))),
+    Inv nL nR (sentBatches true ops) (sentBatches false ops) st acc →
+    runFrom ch' st.swap i (ops.map swapOp) =
+      ((runFrom ch st i ops).1.swap, (runFrom ch st i ops).2.1.map (fun p => (p.1, swapEl p.2)),
+       (runFrom ch st i ops).2.2.1, (runFrom ch st i ops).2.2.2) := by
+  induction ops with
+  | nil => intro st i acc _; simp [runFrom]
+  | cons op ops ih =>
+    intro st i acc h
+    cases op with
+    | enq l r es =>
+      simp only [List.map_cons, swapOp, runFrom, enqueue_swap]
+      cases l with
+      | true => exact ih _ _ acc (inv_enq_left st r es (by simpa [sentBatches] using h))
+      | false => exact ih _ _ acc (inv_enq_right st r es (by simpa [sentBatches] using h))
+    | pump =>
+      simp only [sentBatches] at h
+      simp only [List.map_cons, swapOp, runFrom, pumpFuel_swap]
+      rw [pump_swap (ch := ch) (ch' := ch') hch (pumpFuel st) st acc h]
+      obtain ⟨p1, _⟩ := pump_inv (ch := ch) (pumpFuel st) st acc h
+      simp only
+      cases hoc : (pump ch (pumpFuel st) st).2.2.2 with
+      | idle =>
+        simp only
+        rw [ih _ _ _ p1]
+        simp [List.map_append, List.map_map, Function.comp_def]
+      | done => simp [List.map_map, Function.comp_def]
+      | blocked => simp [List.map_map, Function.comp_def]
+      | panic => simp [List.map_map, Function.comp_def]
+      | fuel => simp [List.map_map, Function.comp_def]
+theorem sentBatches_swap (l : Bool) (ops : List (Op α)) :
+    sentBatches l (ops.map swapOp) = sentBatches (!l) ops := by
+  induction ops with
+  | nil => rfl
+  | cons op ops ih =>
+    cases op with
+    | enq l' r es => cases l <;> cases l' <;> simp [swapOp, sentBatches, ih]
+    | pump => simpa [swapOp, sentBatches] using ih
+
+theorem contractR_swap (nL nR : Nat) (ops : List (Op α)) :
+    contractR nL nR ops = contractL nR nL (ops.map swapOp) := by
+  simp only [contractR, contractL, sentBatches_swap, Bool.not_true, Bool.not_false]
+  cases decide (0 < nL) <;> cases decide (0 < nR) <;> rfl
+
+theorem swapOp_invol (ops : List (Op α)) : (ops.map swapOp).map swapOp = ops := by
+  induction ops with
+  | nil => rfl
+  | cons op ops ih => cases op <;> simp [swapOp, ih]
+
+/-- the End marker of the right side -/
+def isRE : Elem (Bin α) → Bool
+  | .item .rightEnd => true
+  | _ => false
+
+def markersR (es : List (Elem (Bin α))) : Nat := (es.filter isRE).length
+
+theorem markersR_presented (es : List (Elem (Bin α))) : markersR (presented false es) = markersR es := by
+  unfold markersR presented
+  rw [List.filter_filter]
+  congr 1
+  apply List.filter_congr
+  intro e _
+  cases e with
+  | item v => cases v <;> simp [isRE, ofSide]
+  | _ => simp [isRE]
+
+theorem markersR_swap (es : List (Elem (Bin α))) : markersR (es.map swapEl) = markers es := by
+  unfold markersR markers
+  rw [List.filter_map, List.length_map]
+  congr 1
+  apply List.filter_congr
+  intro e _
+  cases e with
+  | item v => cases v <;> simp [isRE, isLE, swapEl, Elem.map, Bin.swap]
+  | _ => simp [isRE, isLE, swapEl, Elem.map]
+
+theorem presented_swap (es : List (Elem (Bin α))) :
+    presented false (es.map swapEl) = (presented true es).map swapEl := by
+  unfold presented
+  rw [List.filter_map]
+  congr 1
+  apply List.filter_congr
+  intro e _
+  cases e with
+  | item v => cases v <;> simp [ofSide, swapEl, Elem.map, Bin.swap]
+  | ts v t => cases v <;> simp [ofSide, swapEl, Elem.map, Bin.swap]
+  | _ => simp [ofSide, swapEl, Elem.map]
+
+theorem clean_swap (es : List (Elem (Bin α))) (h : Clean es) : Clean (es.map swapEl) := by
+  intro e he
+  obtain ⟨x, hx, rfl⟩ := List.mem_map.mp he
+  have := h x hx
+  cases x <;> simp_all [plainE, swapEl, Elem.map, Elem.isFar, Elem.isTerm]
+
+theorem joinRounds_swap (rs : List (List (Elem (Bin α)))) :
+    (joinRounds rs).map swapEl = joinRounds (rs.map (List.map swapEl)) := by
+  induction rs with
+  | nil => rfl
+  | cons r rs ih =>
+    simp only [joinRounds, List.flatMap_cons, List.map_append, List.map_cons] at ih ⊢
+    rw [ih]; simp [swapEl, Elem.map]
+
+/-- exchanging the sides of a shaped output -/
+theorem runShaped_swap {out : List (Elem (Bin α))} {oc : Outcome} (h : RunShaped true markers out oc) :
+    RunShaped false markersR (out.map swapEl) oc := by
+  obtain ⟨P, rs, cur, h1, h2, hm, hnp, h3⟩ := h
+  refine ⟨P.map swapEl, rs.map (List.map swapEl), cur.map swapEl, ?_, ?_, ?_, hnp, ?_⟩
+  · intro r hr
+    obtain ⟨x, hx, rfl⟩ := List.mem_map.mp hr
+    exact clean_swap x (h1 x hx)
+  · intro r hr
+    obtain ⟨x, hx, rfl⟩ := List.mem_map.mp hr
+    rw [presented_swap, h2 x hx]
+  · intro hne
+    rw [markersR_swap]
+    exact hm (by intro e; apply hne; simp [e])
+  · rcases h3 with ⟨e1, e2, e3⟩ | ⟨e1, e2, e3⟩
+    · left
+      exact ⟨by rw [e1, List.map_append, joinRounds_swap], clean_swap cur e2, e3⟩
+    · right
+      refine ⟨by rw [e1, List.map_append, joinRounds_swap]; simp [swapEl, Elem.map], ?_, by rw [e3]; simp [swapEl, Elem.map]⟩
+      intro e; apply e2; simpa using e
+/-- **the output of a contract-respecting history with the RIGHT side cached**: it is the exchanged output
+    of the exchanged history run with the left side cached (and the flipped oracle) -/
+theorem run_shaped_right (nL nR : Nat) (ops : List (Op α)) (hc : contractR nL nR ops = true) :
+    RunShaped false markersR (run ch nL nR false true ops).1 (run ch nL nR false true ops).2 := by
+  have hcL : contractL nR nL (ops.map swapOp) = true := by rw [← contractR_swap]; exact hc
+  have hch : ∀ i, ch i = !(fun j => !ch j) i := by intro i; simp
+  have hfresh : Fresh nR nL ((init nL nR false true : State α).swap) :=
+    ⟨rfl, rfl, rfl, rfl, rfl, by show nL + nR = nR + nL; omega, by show nL + nR = nR + nL; omega,
+     by show nL + nR = nR + nL; omega, rfl⟩
+  have hsh := runFrom_shaped (ch := fun j => !ch j) nR nL (ops.map swapOp) _ hfresh hcL
+  have hsw := runFrom_swap (ch := fun j => !ch j) (ch' := ch) (nL := nR) (nR := nL) hch (ops.map swapOp)
+    ((init nL nR false true : State α).swap) 0 [] (inv_init _ _ hfresh hcL)
+  rw [swapOp_invol] at hsw
+  have hinit : ((init nL nR false true : State α).swap).swap = init nL nR false true := rfl
+  rw [hinit] at hsw
+  have h := runShaped_swap hsh
+  unfold run
+  simp only
+  rw [hsw]
+  simp only [List.map_map]
+  have e : ((fun x : Nat × Elem (Bin α) => x.2) ∘ fun p : Nat × Elem (Bin α) => (p.1, swapEl p.2))
+      = (swapEl ∘ fun x : Nat × Elem (Bin α) => x.2) := by funext p; rfl
+  rw [e, ← List.map_map]
+  exact h
+end
 
 end Noir.BinaryStart
